@@ -4,7 +4,8 @@ C13 — saved and reloaded objects reproduce results exactly.
 E3 (lock-step product of an object and its reloaded copy):
   vm     : VacancyMediated on each crystal; every history over {a, b, S} of the depth bound with at least one S
            (a, b = evaluate Lij on input a / b (b shares the vacancy data with a), S = addhdf5 + loadhdf5 into an
-           in-memory file; after S both the original and the copy continue); after the history every input of the
+           in-memory file; after S both the original and the copy continue; F = a foreign calculator -- the same
+           network on a lattice scaled by 1.25 -- is saved before use, reloaded and evaluated on a, b, c in the same process); after the history every input of the
            pool {a, b, c} is evaluated on both: results must be equal (==, same arithmetic), tags equal, caches equal
   gf     : GFCrystalcalc save/load (before any SetRates, as documented), then SetRates + every endpoint of a small set
   stars  : StarSet / VectorStarSet save/load: states, stars, index tables, vector stars, outer products
@@ -21,7 +22,7 @@ from mc import vm, catalog, inter
 PID = 'C13'
 ENGINE = 'E3'
 TECHNIQUE = 'lock-step exploration of (object, reloaded copy) over all save positions in bounded histories; bitwise equality of all subsequent results; exhaustive YAML round trips over instance pools'
-RULE = ('vm: every history of length <= depth over {a,b,S} containing S; state = (original, copy); nontrivial = histories in which the save '
+RULE = ('vm: every history of length <= depth over {a,b,S,F} containing S; state = (original, copy); nontrivial = histories in which the save '
         'happens after the cache was populated; yaml/hdf5 pools: every listed instance')
 LEVEL_TEXT = 'All save positions in all histories up to the depth bound, all instances of the pools; equality is exact (same arithmetic on both sides).'
 LEVEL_NOTE = 'HDF5 files are in memory (driver=core, backing_store=False); YAML through yaml.dump / yaml.load(Loader=yaml.Loader) as the package tests do.'
@@ -39,7 +40,7 @@ def cases(tier):
     out = []
     for (n, i) in (VMCRYS[:4] if tier == 'quick' else VMCRYS):
         depth = 3 if tier == 'quick' else 4
-        hs = [h for L in range(1, depth + 1) for h in itertools.product('abS', repeat=L) if 'S' in h]
+        hs = [h for L in range(1, depth + 1) for h in itertools.product('abSF', repeat=L) if 'S' in h]
         for c in range(0, len(hs), 12):
             out.append({'key': 'vm/{}/{}'.format(n, c // 12), 'type': 'vm', 'crystal': n, 'icut': i, 'histories': [''.join(h) for h in hs[c:c + 12]], 'cost': 2})
     for n in ['HCP', 'OMEGA', 'HONEY'] + (['PYROPE'] if tier != 'quick' else ['SQUARE']):
@@ -73,12 +74,24 @@ def eval_vm(case):
     def V(orc, hist, det):
         viols.append({'oracle': orc, 'key': 'vm/{};history={}'.format(name, hist), 'detail': det,
                       'case': dict(case, histories=[hist])})
+    # the foreign calculator of letter F: same network on the lattice scaled by 1.25 (same input keys, different results)
+    crysF = crystal.Crystal(crys.lattice * 1.25, crys.basis, crys.chemistry)
+    slF, jnF = crysF.sitelist(chem), crysF.jumpnetwork(chem, catalog.meta(name)['cut'][icut] * 1.25)
     for hist in case['histories']:
         calcs = [OnsagerCalc.VacancyMediated(crys, chem, sl, jn, 1)]
         populated_before_save = False
         try:
             for n, op in enumerate(hist):
-                if op == 'S':
+                if op == 'F':
+                    f = memfile('c13f')
+                    try:
+                        OnsagerCalc.VacancyMediated(crysF, chem, slF, jnF, 1).addhdf5(f)
+                        foreign = OnsagerCalc.VacancyMediated.loadhdf5(f)
+                    finally:
+                        f.close()
+                    for o in 'abc': foreign.Lij(*foreign.preene2betafree(1.0, **data[o]))
+                    ntr += 3
+                elif op == 'S':
                     if any(len(c.GFvalues) > 0 for c in calcs): populated_before_save = True
                     new = []
                     for c in calcs:
